@@ -266,3 +266,6 @@ def run(ctx):
     ctx.guard(r04_3)
     ctx.guard(r04_4)
     ctx.guard(r04_5)
+    # independence across nodes: seeds are a function of (entropy, tree position) with distinct keys per node
+    from . import c06
+    ctx.guard(c06.r06_1)
